@@ -27,8 +27,11 @@ VerdictCopy ==
      Viol("COPY_EQUALS_SOURCE", Ev.c0 = Ev.s0)
 \cup Viol("COPY_INDEPENDENT", Ev.c1 = Ev.c0 /\ Ev.s2 = Ev.s1)
 
-Verdict == CASE Ev.k = "call" -> VerdictCall [] Ev.k = "copy" -> VerdictCopy [] Ev.k = "skip" -> {"NO_GENERATOR"} [] OTHER -> {"UNKNOWN_KIND"}
-Advance == IF Ev.k = "call" THEN [glob |-> Ev.gpost, memo |-> Remember(st.memo, Ev)] ELSE st
+\* a call the documentation itself declares invalid must be refused, with TypeError or ValueError
+VerdictMust == Viol("REJECTS_AS_DOCUMENTED", Ev.oc \in Rejections) \cup Viol("GLOBALS_UNCHANGED", Ev.gpre = Ev.gpost)
+
+Verdict == CASE Ev.k = "must" -> VerdictMust [] Ev.k = "call" -> VerdictCall [] Ev.k = "copy" -> VerdictCopy [] Ev.k = "skip" -> {"NO_GENERATOR"} [] OTHER -> {"UNKNOWN_KIND"}
+Advance == IF Ev.k = "must" THEN [st EXCEPT !.glob = Ev.gpost] ELSE IF Ev.k = "call" THEN [glob |-> Ev.gpost, memo |-> Remember(st.memo, Ev)] ELSE st
 Init == TraceInit([glob |-> -1, memo |-> <<>>])
 Next == StepWith(Verdict, Advance)
 Spec == Init /\ [][Next]_<<l, st>>
